@@ -1077,6 +1077,12 @@ class Interp:
             radt = (rty or {}).get("adt")
             if radt in (R, O):
                 return self.try_fold(st, args[0], args[1], args[2], radt, depth, stack)
+        if tr == "std::iter::Iterator" and nm == "try_for_each" and len(args) == 2 and not fn.get("resolved_local"):
+            # `it.try_for_each(f)` is `for x in it { f(x)? } Ok(())`
+            rty = self.f.ty(fn["args"][-1]) if fn.get("args") else None
+            radt = (rty or {}).get("adt")
+            if radt in (R, O):
+                return self.try_fold(st, args[0], ("tup", ()), args[1], radt, depth, stack, unit=True)
         return None
 
     def iter_next(self, st, itp):
@@ -1099,17 +1105,17 @@ class Interp:
         out.append((s3, self.mk(O, "None")))
         return out
 
-    def try_fold(self, st, itp, acc, f, radt, depth, stack, rounds=0):
+    def try_fold(self, st, itp, acc, f, radt, depth, stack, rounds=0, unit=False):
         O, R = self.OPTION, self.RESULT
         out = []
         for s2, nxt in self.iter_next(st, itp):
             if nxt[2] == "None":
                 out.append((s2, self.mk(R, "Ok", acc) if radt == R else self.mk(O, "Some", acc)))
                 continue
-            for s3, r in self.apply(s2, f, [acc, nxt[3][0]], depth + 1, stack):
+            for s3, r in self.apply(s2, f, ([nxt[3][0]] if unit else [acc, nxt[3][0]]), depth + 1, stack):
                 for s4, var, pl in self.cases(s3, r, radt):
                     if var in ("Ok", "Some"):
-                        out += self.try_fold(s4, itp, pl[0], f, radt, depth, stack, rounds + 1)
+                        out += self.try_fold(s4, itp, pl[0], f, radt, depth, stack, rounds + 1, unit)
                     elif radt == R:
                         out.append((s4, self.mk(R, "Err", pl[0])))
                     else:
